@@ -190,6 +190,7 @@ func (t *TabCompleteResponse) Decode(c *proto.PacketContext, rd io.Reader) (err 
 			if err != nil {
 				return err
 			}
+			tooltip = nil
 			if hasTooltip {
 				tooltip, err = chat.ReadComponentHolder(rd, c.Protocol)
 				if err != nil {
